@@ -190,6 +190,22 @@ class SymbolicPath:
         ob.seconds = time.time() - t0
         if ob.result == "unknown" and self.session.alt_backend is not None:
             self.session.alt_backend(self, g, ob)
+        if ob.result == "unknown":
+            # candidate counter-model from the quantifier-free part of the hypotheses: not a proof of
+            # anything, only an input worth replaying on the real code
+            try:
+                from .smt import _has_quant
+                s2 = z3.Solver()
+                s2.set("timeout", 5000)
+                for c in self.conds:
+                    if not _has_quant([c]):
+                        s2.add(c)
+                s2.add(z3.Not(g) if not _has_quant([g]) else z3.BoolVal(True))
+                if s2.check() == z3.sat:
+                    ob.inputs = self.decode_inputs(s2.model())
+                    ob.detail += " [candidate inputs from quantifier-free weakening]"
+            except Exception as ex:
+                ob.detail += " [no candidate: %s]" % ex
         self.obligations.append(ob)
         self.session.record(ob)
         if assume_after:
